@@ -3,7 +3,9 @@
     Model: Model/Eval.v (the four [eval] methods with their caches, leaf assignment). *)
 From Coq Require Import List QArith Reals Qreals Lra.
 From PV Require Import Base.IPS Model.Dict Model.Terms Model.Dump Model.Eval Model.Resolve Spec.Sem Spec.GramSem
-  Proofs.DictLemmas Proofs.C02Vec Proofs.C02Cache Proofs.C02Main.
+  Proofs.DictLemmas Proofs.C02Vec Proofs.C02Cache Proofs.C02Main Proofs.C02Factor.
+From PV Require Spec.KKT.
+From PV Require Import Model.FactorPlan Gen.Factor.
 Import ListNotations.
 Local Open Scope R_scope.
 
@@ -142,6 +144,45 @@ Proof.
   - eexists. split; [vm_compute; reflexivity|]. reflexivity.
 Qed.
 
+(** The factorisation of pep.py (_eval_points_and_function_values): eigh, clipping, sqrt, QR.  From the
+    SPECIFICATIONS of numpy's eigh (V^T V = I, G = V diag(lam) V^T) and qr (M = Q R, Q^T Q = I) -- the routines
+    themselves stay trusted and are measured -- for every size n: the columns of [points_values] = R have the
+    inner products of Gp = V diag(max(lam,0)) V^T; Gp is PSD; Gp = G when no eigenvalue is negative; G - Gp is
+    the negative spectral part, entry-wise at most eps * sum_k |V_ik V_jk| when every eigenvalue is >= -eps. *)
+Theorem C02_factor_reproduces_projection :
+  forall n G lam V Qm Rm,
+    eigh_spec n G lam V -> qr_spec n (scaled_T lam V) Qm Rm ->
+    forall i j, (i < n)%nat -> (j < n)%nat ->
+      KKT.sumn n (fun b => Rm b i * Rm b j) = proj n lam V i j.
+Proof. exact factor_reproduces_projection. Qed.
+
+Theorem C02_projection_psd : forall n lam V, KKT.psd_qf n (proj n lam V).
+Proof. exact projection_psd. Qed.
+
+Theorem C02_projection_is_identity_on_psd :
+  forall n G lam V, eigh_spec n G lam V -> (forall k, (k < n)%nat -> 0 <= lam k) ->
+    forall i j, (i < n)%nat -> (j < n)%nat -> proj n lam V i j = G i j.
+Proof. exact projection_is_identity_on_psd. Qed.
+
+Theorem C02_projection_error_bound :
+  forall n G lam V eps, eigh_spec n G lam V -> 0 <= eps -> (forall k, (k < n)%nat -> - eps <= lam k) ->
+    forall i j, (i < n)%nat -> (j < n)%nat ->
+      Rabs (G i j - proj n lam V i j) <= eps * KKT.sumn n (fun k => Rabs (V i k * V j k)).
+Proof. exact projection_error_bound. Qed.
+
+(** Tie of the factorisation theorems to the source: the plan REGENERATED from pep.py on every run is eigh, clipping
+    of the negative eigenvalues, QR of (sqrt(eig_val) * eig_vec)^T keeping R -- what [eigh_spec] / [scaled_T] /
+    [qr_spec] formalise -- and every leaf value assigned afterwards is column x.counter of that R (points) or
+    entry x.counter of F (expressions), nothing else. *)
+Theorem C02_factor_plan_modelled :
+  factor_plan_ok factor_plan = true /\ value_assignments_ok value_assignments = true.
+Proof. split; vm_compute; reflexivity. Qed.
+
+Example C02_factor_example :
+  eigh_spec 2 ex_G ex_lam delta /\ qr_spec 2 (scaled_T ex_lam delta) delta (scaled_T ex_lam delta)
+  /\ proj 2 ex_lam delta 1 1 = 0 /\ ex_G 1%nat 1%nat = -1.
+Proof. split; [exact ex_eigh|]. split; [exact ex_qr|exact ex_projection_differs]. Qed.
+
 Print Assumptions C02_eval_hom.
 Print Assumptions C02_eval_total.
 Print Assumptions C02_clean_is_good.
@@ -154,3 +195,8 @@ Print Assumptions C02_objective_is_min.
 Print Assumptions C02_leaf_assignment.
 Print Assumptions C02_leaf_reassignment_idempotent.
 Print Assumptions C02_dot_bilinear.
+Print Assumptions C02_factor_reproduces_projection.
+Print Assumptions C02_projection_psd.
+Print Assumptions C02_projection_is_identity_on_psd.
+Print Assumptions C02_projection_error_bound.
+Print Assumptions C02_factor_plan_modelled.
